@@ -475,9 +475,8 @@ def v6_derived_constructors(ctx) -> None:
                           f"current names, so both the lookup and the filter must use the current name `{b}` (and the key the first-class name `{a}`)")
     if not done:
         ctx.violation("V6", f, "EquivalencePathRule.constructor no longer composes the running map with each step's table", construct="EquivalencePathRule.constructor composition")
-    fv = PT.find_all(f, "{_M_k: 0 for _M_k in self.children[0].extra_parameters if _M_k not in _M_run.values()}", {"_M_run": run})
-    fvn = _assigned_name(fv[0][0]) if fv else None
-    if fvn and PT.find_all(f, "DisjointUnion(self.comb_class, self.children, (_M_run,), (_M_fv,))", {"_M_run": run, "_M_fv": fvn}):
+    if PT.find_flow(f, "{_M_k: 0 for _M_k in self.children[0].extra_parameters if _M_k not in _M_run.values()}",
+                    "DisjointUnion(self.comb_class, self.children, (_M_run,), (_M_fv,))", "_M_fv", {"_M_run": run}):
         ctx.ok("V6", "path: parameters of the last class that nothing maps onto are fixed to 0")
     else:
         ctx.violation("V6", f, "EquivalencePathRule.constructor must fix to 0 the last class's parameters outside the image of the composed map and build "
